@@ -351,13 +351,28 @@ def _dispatch(run, F):
     gate = P.func("comm.protocol.HSM2Protocol.__internal_handle_request")
     for pc in protocol_classes(run):
         g = A.cfg(gate, pc)
-        disp = [n for n in A.own_nodes(gate) if isinstance(n, ast.Call) and isinstance(n.func, ast.Subscript)
-                and norm(n.func.value) == "self._mappings"]
-        vals = [n for n in A.own_nodes(gate) if isinstance(n, ast.Call) and isinstance(n.func, ast.Subscript)
-                and norm(n.func.value) == "self._validation_mappings"]
+        PVg = Prov(A)
+
+        def table_of(call):
+            """(table text, key text) when the called function is an entry of a dispatch table (directly, or held in a local / read with .get)"""
+            for cn in g.nodes_of(call):
+                for x in PVg.expand_consistent(gate, pc, call.func, cn, stop=("command", "request")):
+                    try:
+                        e = ast.parse(x, mode="eval").body
+                    except SyntaxError:
+                        continue
+                    if isinstance(e, ast.Subscript):
+                        return norm(e.value), norm(e.slice)
+                    if isinstance(e, ast.Call) and isinstance(e.func, ast.Attribute) and e.func.attr == "get" and e.args:
+                        return norm(e.func.value), norm(e.args[0])
+            return None, None
+        calls_ = [n for n in A.own_nodes(gate) if isinstance(n, ast.Call) and not isinstance(n.func, ast.Attribute) or
+                  (isinstance(n, ast.Call) and isinstance(n.func, ast.Subscript))]
+        disp = [n for n in calls_ if table_of(n)[0] == "self._mappings"]
+        vals = [n for n in calls_ if table_of(n)[0] == "self._validation_mappings"]
         run.require(len(disp) == 1 and len(vals) == 1, "gate: dispatch / validation call not found")
         d, v = disp[0], vals[0]
-        same = norm(d.func.slice) == norm(v.func.slice) and [norm(a) for a in d.args] == [norm(a) for a in v.args]
+        same = table_of(d)[1] == table_of(v)[1] and [norm(a) for a in d.args] == [norm(a) for a in v.args]
         run.check("R4", same, f"{pc.name}: dispatch and validation use the same command and request",
                   key=f"{pc.name}|gate|dispatch-same-args", where=gate.loc(d),
                   message="the dispatch call does not use the command/request that was validated")
